@@ -5,7 +5,7 @@ import collections
 import random
 
 from pv import net, refwire, sdgen
-from pv.vloop import Harness, RES
+from pv.vloop import Harness, RES, AFTER
 
 ID = "C11"
 LEVEL = "exploration"
@@ -172,6 +172,13 @@ def run_scenario(ctx, rng, seed, replay):
         before_store = sc.store_snapshot()
         for b in batch:
             h.at(t, sc.prot.datagram_received, b["data"], b["sender"], b["mc"])
+        if sc.mode == "normal" and rng.random() < 0.2:
+            # the announcer is stopped and started again while the acknowledgements of this batch are still waiting in their
+            # collection window (or right behind the batch when nothing is collected): they still leave, and later batches
+            # are answered as ever
+            ann = sc.prot.announcer
+            h.at(t + (sc.ct / 2 if sc.ct else 0.0), lambda: (ann.stop(), ann.start()), rank=AFTER)
+            ctx.count("announcer_restarts_inside_the_answer_window")
         h.run(t + max(sc.ct, 0) + 2.0 ** -6)
         ctx.count("messages", len(batch))
         ctx.count("subscribe_entries", sum(len(b["entries"]) for b in batch))
